@@ -18,19 +18,32 @@ NEXT_PROPS = ('CommitLock', 'PreCertificate', 'ResetClean', 'EarlyUsed')
 INV_ALL = mc.NODE_INVS + ['Certificate']
 
 def cfgs_for(w):
-    """Configurations to try for one weakening, cheapest first."""
+    """Configurations to try for one weakening (the ones where the guard matters), cheapest first."""
     c = lambda name, **kw: mc.node_cfg('atk-%s-%s' % (w, name), weaken=(w,), dev=False, invs=INV_ALL, **kw)
-    return [c('backup-v0', me=1, maxview=0), c('primary-v0', me=2, maxview=0),
-            c('junk-v0', me=1, maxview=0, family=('core', 'junk1')),
-            c('watch', me=2, watch=True),
-            c('amev-v0', me=1, amev=True, maxview=0), c('amev-junk-v0', me=1, amev=True, maxview=0, family=('core', 'junk1')),
-            c('amev-primary-v0', me=2, amev=True, maxview=0),
-            c('next1-v0', me=1, maxview=0, family=('core', 'next1'), props=NEXT_PROPS),
-            c('tx-v0', me=1, maxview=0, family=('core', 'tx')),
-            c('dyn-v0', me=2, maxview=0, dyn=True, family=('core',)),
-            c('rec-v0', me=1, maxview=0, family=('core', 'recovery')),
-            c('backup-v1', me=1, maxview=1), c('equiv-v0', me=1, maxview=0, family=('core', 'equiv')),
-            c('amev-v1', me=1, amev=True, maxview=1)]
+    base = {'backup-v0': dict(me=1, maxview=0), 'primary-v0': dict(me=2, maxview=0),
+            'junk-v0': dict(me=1, maxview=0, family=('core', 'junk1')), 'watch': dict(me=2, watch=True, maxview=0),
+            'amev-v0': dict(me=1, amev=True, maxview=0), 'amev-junk-v0': dict(me=1, amev=True, maxview=0, family=('core', 'junk1')),
+            'amev-primary-v0': dict(me=2, amev=True, maxview=0),
+            'next1-v0': dict(me=1, maxview=0, family=('core', 'next1'), props=NEXT_PROPS),
+            'tx-v0': dict(me=1, maxview=0, family=('core', 'tx')), 'txapp-v0': dict(me=1, maxview=0, family=('core', 'tx', 'app')),
+            'dyn-v0': dict(me=2, maxview=0, dyn=True), 'rec-v0': dict(me=1, maxview=0, family=('core', 'recovery')),
+            'backup-v1': dict(me=1, maxview=1), 'primary-v1': dict(me=2, maxview=1), 'equiv-v0': dict(me=1, maxview=0, family=('core', 'equiv')),
+            'equiv-v1': dict(me=1, maxview=1, family=('core', 'equiv')), 'amev-v1': dict(me=1, amev=True, maxview=1)}
+    want = {
+        'no_sig_check_commit': ['junk-v0', 'amev-junk-v0'], 'no_resp_hash_check': ['equiv-v0', 'junk-v0'],
+        'resend_builds_new_commit': ['backup-v0', 'rec-v0', 'backup-v1'], 'no_view_filter_commit': ['backup-v1', 'primary-v1'],
+        'commit_M_minus_1': ['backup-v0', 'primary-v0'], 'precommits_unverified_at_count': ['amev-junk-v0'],
+        'preblock_twice': ['amev-v0', 'amev-v1'], 'no_view_filter_prepare': ['backup-v1', 'primary-v1'],
+        'prepare_M_minus_1': ['backup-v0', 'primary-v0'], 'no_precommit_before_commit': ['amev-v0', 'amev-primary-v0'],
+        'header_before_preblock': ['amev-v0', 'amev-junk-v0'], 'reset_keeps_commits': ['next1-v0'], 'no_rearm_init': ['backup-v0', 'backup-v1'],
+        'cv_M_minus_1': ['backup-v1'], 'no_rearm_cv': ['backup-v0', 'backup-v1'], 'respond_without_verify': ['txapp-v0'],
+        'no_primary_check': ['junk-v0', 'equiv-v0'], 'respond_without_txs': ['tx-v0'], 'no_commit_lock_cv': ['backup-v1', 'primary-v1', 'amev-v1'],
+        'no_commit_lock_recovery': ['rec-v0', 'backup-v1'], 'no_blocksent_gate': ['backup-v0', 'backup-v1', 'rec-v0'],
+        'primary_keeps_early': ['primary-v0', 'junk-v0'], 'no_commit_lock_timeout': ['backup-v0', 'backup-v1'], 'no_rearm_locked': ['backup-v0'],
+        'start_ignores_watchonly': ['watch'], 'no_future_cache': ['next1-v0'], 'no_answer_after_rerequest': ['tx-v0'],
+        'F_is_N_div_3': [], 'primary_h_plus_v': ['backup-v0', 'backup-v1'],
+    }
+    return [c(nm, **base[nm]) for nm in want.get(w, ['backup-v0', 'primary-v0'])]
 
 NODE_WEAKENINGS = ['no_sig_check_commit', 'no_resp_hash_check', 'resend_builds_new_commit', 'no_view_filter_commit', 'commit_M_minus_1',
                    'precommits_unverified_at_count', 'preblock_twice', 'no_view_filter_prepare', 'prepare_M_minus_1',
@@ -39,7 +52,7 @@ NODE_WEAKENINGS = ['no_sig_check_commit', 'no_resp_hash_check', 'resend_builds_n
                    'no_commit_lock_recovery', 'no_blocksent_gate', 'primary_keeps_early', 'no_commit_lock_timeout', 'no_rearm_locked',
                    'start_ignores_watchonly', 'no_future_cache', 'no_answer_after_rerequest', 'F_is_N_div_3', 'primary_h_plus_v']
 
-def node_attacks(wd, per_weakening=2, cap=240):
+def node_attacks(wd, per_weakening=2, cap=150):
     out = []
     def one(w):
         found, seen_inv = [], set()
@@ -47,7 +60,7 @@ def node_attacks(wd, per_weakening=2, cap=240):
             if len(found) >= per_weakening:
                 break
             try:
-                r = mc.run_tlc(it, wd, workers=2, cap=cap)
+                r = mc.run_tlc(it, wd, workers=3, cap=cap)
             except vlib.Infra as e:
                 print('node', w, it['name'], 'TLC error (skipped):', str(e)[-300:].replace('\n', ' '), flush=True)
                 continue
@@ -57,7 +70,7 @@ def node_attacks(wd, per_weakening=2, cap=240):
                               'property': mc.INV_PROP.get(r['violated'], '?'), 'events': len(r['schedule']), 'schedule': r['schedule']})
         print('node', w, [(f['config'], f['invariant']) for f in found], flush=True)
         return found
-    with ThreadPoolExecutor(max_workers=6) as ex:
+    with ThreadPoolExecutor(max_workers=4) as ex:
         for f in ex.map(one, NODE_WEAKENINGS):
             out += f
     return out
